@@ -198,8 +198,10 @@ static int aggregateChain(KSI_CTX *ctx, KSI_LIST(KSI_HashChainLink) *chain, cons
 
 		if (!isCalendar) {
 			KSI_uint64_t levelCorrection = KSI_Integer_getUInt64(link->levelCorrection);
-			if (levelCorrection > 0xff || level + levelCorrection + 1 > 0xff)
-				KSI_pushError(ctx, res = KSI_INVALID_ARGUMENT, "Aggregation chain level out of range.");
+			if (levelCorrection > 0xff || level + levelCorrection + 1 > 0xff) {
+				KSI_pushError(ctx, res = KSI_INVALID_FORMAT, "Aggregation chain level out of range.");
+				goto cleanup;
+			}
 			level += (int)levelCorrection + 1;
 		} else {
 			/* Update the hash algo id when we encounter a left link. */
